@@ -167,6 +167,12 @@ pub fn gen_rw_run(check: &str, seed: u64, tier: Tier) -> Run {
     if f.chance(1, 4) {
         run.set("buggify_mask", 1 + f.below(7) as i64);
         run.set("buggify_seed", (f.next() >> 1) as i64);
+        if run.get("node_budget") > 200 {
+            // site 4 (the smaller class survives a merge on ties) turns big rewriting runs quadratic in
+            // time and worse in memory (a thorough-tier run with a 2000-node budget grew beyond 35 GB):
+            // it stays on for small e-graphs only
+            run.set("buggify_mask", run.get("buggify_mask") & 3);
+        }
     }
     if f.chance(1, 2) {
         run.set("probes", 1 + f.below(50) as i64);
